@@ -296,7 +296,7 @@ impl Property for C14 {
                 emit(json!({"kind": "lex-table"}));
             })
             .exhaustive(),
-            Family::new("sequences", ctx.tier.pick(1000, 12000), move |_c, rng, emit| {
+            Family::new("sequences", ctx.tier.pick(1000, 40000), move |_c, rng, emit| {
                 for _ in 0..500 {
                     if !emit(gen_case(rng, &known)) {
                         return;
